@@ -213,7 +213,8 @@ class C20(PropBase):
             "directory | text) x (symbol path style) x (output mode flags incl. conflicting ones) x --brief x --pretty x --features "
             "x --recover-function-args x --output-file class (none / writable / missing directory / /dev/full) x --cyborg file class "
             "x --log-file x --verbose x stdout class (pipe / /dev/full / closed pipe / reader leaving after N bytes) x RLIMIT_FSIZE "
-            "x --symbols-url on a loopback server (200/404/garbage; cache/tmp usable or not) x --use-local-debuginfo; file sink "
+            "x --symbols-url on a loopback server (200/404/garbage/slow answer vs download timeout; cache/tmp usable or not) x "
+            "--use-local-debuginfo; DS:<seed> = synthesized dumps in which each stream kind --dump prints is absent / present / unreadable; file sink "
             "classes: writable, missing directory, /dev/full, a directory, read-only (tool run as uid 65534), FIFO whose reader "
             "leaves after N bytes; the state of each sink path BEFORE the run: absent, empty, shorter, longer, exactly as long as "
             "the report, a symlink to a longer file, a dangling symlink, a symlink loop, or written by previous runs of the tool with "
@@ -240,6 +241,9 @@ class C20(PropBase):
         "translate/c20_cli.py (regexes over `#[derive(Parser)] struct Cli`: every field, its #[arg(..)] keys - aborts on an unknown key, "
         "a short option, an alias, a new field type, a second parser - the ArgGroup, the defaults, the --features match arms, "
         "`let cli = Cli::parse();` as the first statement of main_result)",
+        "translate/c20_dump_sequence.py (regexes over print_minidump_dump: seven statement shapes, everything else must be the known "
+        "scaffolding; the harness's copy of the call sequence is compared textually); C20/DumpModel.v's reading of Option::take / or_else "
+        "and of `?`; the harness's dump_parts (the library's printers called one by one with the arguments main.rs passes)",
         "std::process::exit, tokio main, tracing-subscriber, what clap prints for help / version / usage errors: exercised, not modelled",
         "translate/c20_wiring.py (regexes over main_result: the three File::create sites and the absence of any other file API, every "
         "occurrence of symbols_paths / symbols_cache / symbols_tmp / timeout / cli.symbols_url / options); std's documentation that "
@@ -251,7 +255,10 @@ class C20(PropBase):
         "UTF-8 argument vectors (no short options, no abbreviations, no environment variables, no response files)",
         "--use-local-debuginfo: DebugInfoSymbolProvider cannot be built in the harness; on x86-64 / arm64 dumps the report is checked "
         "for status, presence and --output-file = stdout only (exact equality on every other CPU, where the flag is a no-op)",
-        "--symbols-url is exercised against the harness's loopback server only; log-file writes are not modelled",
+        "--symbols-url is exercised against the harness's loopback server only (200 / 404 / garbage / a slow answer against the default and "
+        "a 1 s download timeout); log-file writes are not modelled",
+        "--dump: what each printer writes for its stream is the library's business (C01); the model decides which printers run, in which "
+        "order, on which stream; get_stream / get_raw_stream are taken to be pure lookups",
         "the environment of the model is abstract: results of File::create, read_path, processing and of each printer call",
         "the file-system theorems speak about regular files whose three paths are pairwise distinct and that nobody else writes during "
         "the run; what the logger writes into the --log-file is not modelled (compared with the log of the same command on a fresh path)",
@@ -303,10 +310,24 @@ class C20(PropBase):
                 "regenerated and pinned (c20_main_steps_pinned); every sink is opened "
                 "before the first report byte in every mode, so an uncreatable --log-file / --cyborg / --output-file path means no "
                 "report byte anywhere (c20_sinks_opened_before_first_report_byte, c20_uncreatable_sink_no_report; the translator pins "
-                "that no File::create follows a printer call). The built minidump-stackwalk binary is run over the option matrix x inputs "
+                "that no File::create follows a printer call); the --dump mode: print_minidump_dump is regenerated from main.rs as a program "
+                "of 31 statements (Gen/C20DumpProg.v; every statement of the body must be one of seven shapes) and interpreted in Gallina over "
+                "what get_stream / get_raw_stream answer per stream kind - for every such view the printers that run are exactly the documented "
+                "table, each readable stream of the 16 typed and 8 raw kinds exactly once, nothing else, the memory64 branch is dead code, and "
+                "an io error in any printer call leaves whole sections and the beginning of the next, a prefix of the complete dump "
+                "(c20_dump_sections_table, c20_dump_each_stream_once, c20_dump_only_documented_sections, c20_dump_memory64_branch_dead, "
+                "c20_dump_io_error_leaves_prefix; with main()'s effects and the output file over any file system: c20_dump_run_end_to_end); "
+                "the two known findings as EXACT classes: a failing run is silent iff --verbose=off and it ends in one of the three error! "
+                "tails (c20_silent_failure_exactly_known_b), a failing run leaves report bytes on the primary output iff the first failing "
+                "printer call is an io error after a streamed prefix or after the complete primary report (c20_dirty_failure_exactly_known_d, "
+                "c20_known_d_reading, c20_known_d_status) - the check accepts a violation as known only if this classifier, run by the extracted "
+                "model on the case, says so; from the argument vector to the HTTP symbol supplier incl. --symbols-cache / --symbols-tmp / "
+                "--symbols-download-timeout-secs and their defaults (c20_argv_http_arguments, c20_argv_supplier). The built minidump-stackwalk binary is run over the option matrix x inputs "
                 "(testdata, synthesized, mutated, truncated, missing, empty, directory) and compared byte for byte with the "
                 "library called in-process (print / print_brief / print_json / the dump printers) and with the model's "
-                "prediction; an independent oracle re-checks the property on exit status, stdout, stderr and the files.",
+                "prediction; every --dump report is cut into the texts of the library's individual printers (each called on its own "
+                "in-process) and the sequence compared with the model's for the lookups observed; an independent oracle re-checks the "
+                "property on exit status, stdout, stderr and the files.",
         "note": "partial: process exit, the panic hook, terminal colouring, the progress display and the TEXT clap prints are runtime "
                 "behaviour — exercised on the real binary, not proved; clap's parser is a hand-written model (C20/Clap.v) over the regenerated "
                 "option table, compared with the binary on ~300 raw argument vectors per run. Trusted: Coq kernel; hand-written model of main.rs "
@@ -988,9 +1009,31 @@ class C20(PropBase):
                 return "the --symbols-tmp directory holds %s files after the run, the library's %s" % (tt, lt)
         return None
 
+    # ------------------------------------------------------------------ known findings: the regex of the registry AND the model's exact class
+    _kclass = {}
+    _kkey = None
+
+    def known_match(self, finding, case, what):
+        """a violation is accepted as the known finding F-C20b / F-C20d only if, besides the registry's pattern, the MODEL's exact
+        classifier (known_b / known_d, proved in C20/Findings.v to be true exactly for the runs that violate the clause) puts this
+        very run into the class - so that the suppression cannot swallow a different defect that merely looks alike (as the
+        cy in {b,d,r} part of the old F-C20d pattern did with seeded C20-7).  Without a model prediction for the case (driver not
+        built) the registry's pattern alone decides."""
+        if not PropBase.known_match(self, finding, case, what):
+            return False
+        ks = [v for (cs, _prof), v in self._kclass.items() if cs == case]
+        if not ks:
+            return True
+        if finding.get("id") == "F-C20b":
+            return any(k[0] for k in ks)
+        if finding.get("id") == "F-C20d":
+            return any(k[1] for k in ks)
+        return True
+
     # ------------------------------------------------------------------ model vs binary, cross-case checks
     def extra(self, ctx):
         vio = []
+        self._kclass = {}
         cases, model = ctx["cases"], ctx["model"]
         compared = mism = 0
         for prof, answers in ctx["impl"].items():
@@ -1002,6 +1045,7 @@ class C20(PropBase):
                 c = parse_case(case)
                 a = parse_answer(ans)
                 if a["lib"] in ("R", "P", "O"):
+                    self._kkey = (case, prof)
                     bad = self.compare_case(c, a, model[i])
                     if bad == "skip":
                         continue
@@ -1078,6 +1122,8 @@ class C20(PropBase):
                         vio.append({"case": case, "profile": prof, "found_input": True,
                                     "what": "correspondence (--dump): the model of print_minidump_dump predicts the printer calls %s, the "
                                             "tool's report consists of %s (streams: %s)" % (p.strip(), dseq, k), "model": p.strip(), "impl": dseq})
+        ctx["info"]["model_known_b_runs"] = sum(1 for k in self._kclass.values() if k[0])
+        ctx["info"]["model_known_d_runs"] = sum(1 for k in self._kclass.values() if k[1])
         ctx["info"]["dump_sequences_compared"] = dump_compared
         ctx["info"]["dump_sequence_mismatches"] = dump_mism
         ctx["info"]["dump_stream_views"] = len(dq)
@@ -1099,6 +1145,9 @@ class C20(PropBase):
             a = dict(a, lib="R", logc="-" if a.get("logc") in ("L", "L+", "1") else a.get("logc", "-"),
                      errc="-" if a.get("errc") in ("L", "L+", "1") else a.get("errc", "-"))
         pred = cols[col].split(";")
+        if len(pred) >= 12:
+            # the model's verdict on the two known findings for THIS run (exact classes, C20/Findings.v): see known_match
+            self._kclass[self._kkey] = (pred[10] == "1", pred[11] == "1")
         return self.compare(c, a, pred, names=(info != "2"))
 
     def compare_diag(self, c, a, dk, p_ld, p_sd="-"):
@@ -1140,7 +1189,7 @@ class C20(PropBase):
         return None
 
     def compare(self, c, a, pred, names=True):
-        p_exit, p_stdout, p_out, p_cy, p_log, p_sd, p_ld, p_rec, p_sym, p_dk = pred
+        p_exit, p_stdout, p_out, p_cy, p_log, p_sd, p_ld, p_rec, p_sym, p_dk = pred[:10]
         winner = None
         if p_sym != "-":
             p_paths, p_urls, p_win = p_sym.split("/")
